@@ -1,5 +1,6 @@
 import Anndb.Model.Notify
 import Anndb.Generated
+import Anndb.Model.BatchFanIn
 /-!
 # C11 — Write acknowledgements are truthful and reach the right caller
 
@@ -226,6 +227,55 @@ the batch paths pre-check the dimension per item and merge the partitions' error
 theorem write_path_decisions :
     Generated.writeDimCheckFirst = true ∧ Generated.writeProxyErrorsReturned = true ∧
     Generated.proposeTimeoutReturnsDerivedCtxErr = true ∧ Generated.batchDimPrecheckPerItem = true := by decide
+
+/-! ## batches: an error for exactly the ids that failed
+
+A batch call fans out to one worker per owning partition and merges their per-id error maps. An id
+without a reported error counts as written — so the collector must never take an "empty map" that no
+worker sent. -/
+
+/-- invariant of the fan-in when every worker answers -/
+theorem batch_inv (n : Nat) (c : BatchFanIn.Cfg) (r : BatchFanIn.Reach n true c) :
+    c.pending + c.got = n ∧ c.zeros = 0 ∧ (c.closed = true → c.pending = 0) := by
+  induction r with
+  | init => simp [BatchFanIn.init]
+  | @step c c' _ s ih =>
+    obtain ⟨h1, h2, h3⟩ := ih
+    cases s with
+    | deliver hp hl => exact ⟨by simp; omega, h2, by intro hc; have := h3 hc; simp; omega⟩
+    | silent ha hp => cases ha
+    | close hp hc => exact ⟨h1, h2, by intro _; exact hp⟩
+    | zero hc hl => exfalso; have := h3 hc; omega
+
+/-- **every value the collector takes is a worker's answer**, in every schedule: with workers that
+always answer, a collector that has taken its `n` values has `n` real results and not one zero value
+of the closed channel — so an id without a reported error was reported as written by its partition -/
+theorem batch_collects_only_real_answers (n : Nat) (c : BatchFanIn.Cfg) (r : BatchFanIn.Reach n true c)
+    (hc : BatchFanIn.Collected n c) : c.got = n ∧ c.zeros = 0 := by
+  obtain ⟨_, h2, _⟩ := batch_inv n c r
+  unfold BatchFanIn.Collected at hc
+  exact ⟨by omega, h2⟩
+
+/-- a worker that can return without an answer (seeded change C11-D: a local batch that ran into the
+partition's own proposal timeout) lets the collector finish on the closed channel's zero value: the
+call succeeds and reports no error for ids that were never written -/
+theorem silent_worker_is_read_as_success :
+    ∃ c, BatchFanIn.Reach 1 false c ∧ BatchFanIn.Collected 1 c ∧ c.got = 0 := by
+  refine ⟨⟨0, 0, 1, true⟩, ?_, rfl, rfl⟩
+  have h1 : BatchFanIn.Reach 1 false ⟨0, 0, 0, false⟩ := .step .init (.silent _ rfl (by decide))
+  have h2 : BatchFanIn.Reach 1 false ⟨0, 0, 0, true⟩ := .step h1 (.close _ rfl rfl)
+  exact .step h2 (.zero _ rfl (by decide))
+
+/-- every path through the batch worker ends in exactly one send of its result (regenerated) -/
+theorem batch_worker_always_answers : Generated.batchWorkerAlwaysAnswers = true := by decide
+
+/-- non-vacuity: three workers, all delivered, then the channel is closed -/
+example : ∃ c, BatchFanIn.Reach 3 true c ∧ BatchFanIn.Collected 3 c ∧ c.closed = true := by
+  refine ⟨⟨0, 3, 0, true⟩, ?_, rfl, rfl⟩
+  have h1 : BatchFanIn.Reach 3 true ⟨2, 1, 0, false⟩ := .step .init (.deliver _ (by decide) (by decide))
+  have h2 : BatchFanIn.Reach 3 true ⟨1, 2, 0, false⟩ := .step h1 (.deliver _ (by decide) (by decide))
+  have h3 : BatchFanIn.Reach 3 true ⟨0, 3, 0, false⟩ := .step h2 (.deliver _ (by decide) (by decide))
+  exact .step h3 (.close _ rfl rfl)
 
 /-! ## non-vacuity: the good path is reachable with capacity 1 even when apply comes first -/
 
